@@ -741,6 +741,34 @@ def _shard(shard, nshards, tier, seed):
                                     {'part': 'D', 'machine': '48K', 'kinds': list(kinds), 'code': list(c), 'over': over, 'pokes': [list(x) for x in pokes]},
                                     '; '.join(d[:3]), tags={'part': 'D', 'pair': kinds[1], 'group': name}, order=3 * 10**6 + ui)
             stats.counters['D_table_units'] += 1
+        # 16-bit arithmetic: full boundary grid x carry for every ADD/ADC/SBC HL|IX|IY,rr slot
+        a16 = [(0x09 + 16 * k,) for k in range(4)] + [(0xED, 0x42 + 8 * k) for k in range(8)] + \
+              [(px, 0x09 + 16 * k) for px in (0xDD, 0xFD) for k in range(4)]
+        for ui, code in core.shard_iter(a16, shard, nshards):
+            dst = {0xDD: ('IXh', 'IXl'), 0xFD: ('IYh', 'IYl')}.get(code[0], ('H', 'L'))
+            opb = code[-1]
+            src = (('B', 'C'), ('D', 'E'), dst, None)[(opb >> 4) & 3]
+            for x, y, cy in itertools.product(c05.PAIR_VALUES + (0x7FFE, 0x8001, 0x0FFF, 0xF000), c05.PAIR_VALUES + (0x7FFE, 0x8001), (0, 1)):
+                if src == dst and x != y:
+                    continue
+                regs = list(dregs)
+                regs[simh.RIDX[dst[0]]], regs[simh.RIDX[dst[1]]] = x >> 8, x & 0xFF
+                if src is None:
+                    regs[simh.RIDX['SP']] = y
+                else:
+                    regs[simh.RIDX[src[0]]], regs[simh.RIDX[src[1]]] = y >> 8, y & 0xFF
+                regs[1] = cy
+                pair.reset(regs)
+                pair.poke(0x8000, code)
+                d = pair.step()
+                stats.evaluations += 1
+                stats.transitions += 2
+                if d:
+                    stats.violation('D/{}/arith16/{}/{:04X},{:04X},c{}'.format(kinds[1], ''.join('%02X' % b for b in code), x, y, cy),
+                                    {'part': 'D', 'machine': '48K', 'kinds': list(kinds), 'code': list(code),
+                                     'over': {dst[0]: x >> 8, dst[1]: x & 0xFF, 'F': cy, **({'SP': y} if src is None else {src[0]: y >> 8, src[1]: y & 0xFF})},
+                                     'pokes': []}, '; '.join(d[:3]), tags={'part': 'D', 'pair': kinds[1], 'group': 'arith16'}, order=3 * 10**6 + 500)
+            stats.counters['D_arith16'] += 1
     if shard == 0:
         stats.sample({'part': 'A', 'init': 1, 'history': ['EI', 'DD'], 'final': 'FB (each of 3584 slot fillings)'})
         stats.sample({'part': 'B', 'program': 'LD SP,7F00; IM 2; LD A,7E; LD I,A; EI; <EI;HALT>; JP 7000', 't0': 69788, 'interrupts': True})
@@ -772,7 +800,7 @@ def run(tier, seed):
                      'C pages internally, Python delegates paging to the tracer)',
                      'single-step run(start) ignores interrupts in Python by construction; interrupt timing is compared through run(start, stop, True) '
                      'and accept_interrupt()'],
-        required_guards=['D_table_units', 'C_tool_runs', 'B_runs', 'B_interrupt_taken', 'B_interrupts_im1', 'B_interrupts_im2', 'A_inner_states'],
+        required_guards=['D_arith16', 'D_table_units', 'C_tool_runs', 'B_runs', 'B_interrupt_taken', 'B_interrupts_im1', 'B_interrupts_im2', 'A_inner_states'],
     )
     return stats, meta
 
